@@ -1,6 +1,8 @@
 import Lean.Data.Json
 import EAO.Model.Basic
 import EAO.Model.Translate
+import EAO.Model.Grid
+import EAO.Model.Param
 /-!
 # EAO.Driver.Codec — JSON (de)serialisation for the line protocol (not part of the model)
 
@@ -119,5 +121,45 @@ def jProblem (P : Problem) : Json :=
 def jAsset (P : AssetProblem) : Json :=
   Json.mkObj [("name", Json.str P.name), ("nodes", jList Json.str P.nodes), ("c", jRats P.c), ("l", jRats P.l), ("u", jRats P.u), ("rows", jList jRow P.rows),
     ("mapping", jList jMapRow P.mapping)]
+
+/-! grid, parameters, prices -/
+def getInt (j : Json) : Except String Int := j.getInt?
+def getInts (j : Json) : Except String (List Int) := getList getInt j
+
+/-- restricted (or full) grid as data: {pts, idx, dt, Dt, df} -/
+def getGrid (j : Json) : Except String Grid := do
+  pure { pts := ← field j "pts" getInts, idx := ← field j "idx" getNats, dt := ← field j "dt" getRats,
+         Dt := ← field j "Dt" getRats, df := ← field j "df" getRats }
+
+def jInt (i : Int) : Json := Json.num (JsonNumber.fromInt i)
+def jGrid (g : Grid) : Json :=
+  Json.mkObj [("pts", jList jInt g.pts), ("idx", jList jNat g.idx), ("dt", jRats g.dt), ("Dt", jRats g.Dt), ("df", jRats g.df)]
+
+def getInterval (j : Json) : Except String Interval := do
+  pure { start := ← field j "start" getInt, stop := ← fieldOpt j "stop" getInt, value := ← field j "value" getRat }
+
+/-- {"scalar": r} | {"array": [r]} | {"key": s} | {"intervals": [{start, stop|null, value}]} -/
+def getParam (j : Json) : Except String ParamValue := do
+  match j.getObjVal? "scalar" with
+  | .ok v => pure (.scalar (← getRat v))
+  | .error _ => match j.getObjVal? "array" with
+    | .ok v => pure (.array (← getRats v))
+    | .error _ => match j.getObjVal? "key" with
+      | .ok v => pure (.key (← v.getStr?))
+      | .error _ => match j.getObjVal? "intervals" with
+        | .ok v => pure (.intervals (← getList getInterval v))
+        | .error _ => throw "parameter: scalar | array | key | intervals expected"
+
+/-- {"name": [r, …], …} -/
+def getPrices (j : Json) : Except String Prices := do
+  let o ← j.getObj?
+  o.toList.mapM fun (k, v) => do pure (k, ← getRats v)
+
+def jOptRats (l : List (Option Rat)) : Json := jList (fun o => match o with | some r => jRat r | none => Json.null) l
+
+def jBuild (r : Except BuildError AssetProblem) : Json :=
+  match r with
+  | .ok a => Json.mkObj [("problem", jAsset a)]
+  | .error e => Json.mkObj [("error", Json.str e.toString)]
 
 end EAO.Driver
